@@ -17,22 +17,23 @@ THREADINGS = {
 
 class Variant:
     def __init__(self, threading="single", key=0, include=0, proto=0, ordered=0, std="c++17", cxx="g++", opt="-O1", mapk=0,
-                 getevent=0, cci=0):
+                 getevent=0, cci=0, mixins=1):
         self.threading, self.key, self.include, self.proto, self.ordered = threading, key, include, proto, ordered
         self.std, self.cxx, self.opt, self.mapk = std, cxx, opt, mapk
-        self.getevent, self.cci = getevent, cci
+        self.getevent, self.cci, self.mixins = getevent, cci, mixins
 
     @property
     def name(self):
-        return "q_%s_k%d_i%d_p%d_o%d_m%d_g%d_c%d_%s_%s_%s" % (self.threading, self.key, self.include, self.proto, self.ordered, self.mapk,
-                                                              self.getevent, self.cci,
+        return "q_%s_k%d_i%d_p%d_o%d_m%d_g%d_c%d_x%d_%s_%s_%s" % (self.threading, self.key, self.include, self.proto, self.ordered, self.mapk,
+                                                              self.getevent, self.cci, self.mixins,
                                                               self.cxx.replace("+", "p"), self.std.replace("+", "p"), self.opt.strip("-"))
 
     def job(self):
         return dict(src="seq_q.cpp", out_name=self.name, std=self.std, cxx=self.cxx, opt=self.opt,
                     defines=["VH_THREADING=" + THREADINGS[self.threading], "VH_KEY=%d" % self.key,
                              "VH_INCLUDE=%d" % self.include, "VH_PROTO=%d" % self.proto, "VH_ORDERED=%d" % self.ordered,
-                             "VH_MAP=%d" % self.mapk, "VH_GETEVENT=%d" % self.getevent, "VH_CCI=%d" % self.cci])
+                             "VH_MAP=%d" % self.mapk, "VH_GETEVENT=%d" % self.getevent, "VH_CCI=%d" % self.cci,
+                             "VH_MIXINS=%d" % self.mixins])
 
     def cfg_lines(self, name=""):
         l = []
@@ -63,9 +64,9 @@ WEIGHTS = {
     # profile: weights of top-level commands
     "queue": dict(listen=10, listenfront=3, listenbefore=4, unlisten=6, hasany=2, dispatch=5, enqueue=26, process=8,
                   processone=7, processif=7, processuntil=5, peek=4, take=4, clear=2, emptyq=4, addfilter=2, removefilter=1),
-    "dispatch": dict(listen=18, listenfront=8, listenbefore=10, unlisten=12, hasany=5, dispatch=30, enqueue=4, process=3,
+    "dispatch": dict(listencond=6, listenadapt=5, listen=18, listenfront=8, listenbefore=10, unlisten=12, hasany=5, dispatch=30, enqueue=4, process=3,
                      addfilter=1),
-    "filter": dict(listen=10, listenfront=2, unlisten=4, dispatch=22, enqueue=14, process=8, processone=4, processif=3,
+    "filter": dict(listencond=5, listenadapt=3, listen=10, listenfront=2, unlisten=4, dispatch=22, enqueue=14, process=8, processone=4, processif=3,
                    addfilter=14, removefilter=8, emptyq=1),
     "qcopy": dict(listen=12, listenfront=3, listenbefore=4, unlisten=6, hasany=2, dispatch=8, enqueue=20, process=8,
                   processone=5, processif=3, peek=2, take=3, clear=1, emptyq=8, addfilter=3, removefilter=1, qcopy=9, qmove=5),
@@ -83,7 +84,7 @@ def _cmd(rng, profile, nk, issued, cbs, preds, filters, inside=False, allow_proc
         # re-entrant dispatch / processing only where the caller guarantees termination
         # (listeners that add listeners every time they run make the lists grow exponentially)
         for k in ("process", "processone", "processif", "processuntil", "dispatch", "listen", "listenfront",
-                  "listenbefore", "addfilter", "enqueue"):
+                  "listenbefore", "addfilter", "enqueue", "listencond", "listenadapt"):
             if k in w:
                 w[k] = w[k] * (1.0 if k == 'enqueue' else 0.5) if allow_proc else 0
         w["emptyq"] = w.get("emptyq", 0) + 6
@@ -93,6 +94,13 @@ def _cmd(rng, profile, nk, issued, cbs, preds, filters, inside=False, allow_proc
     k = rng.randrange(nk)
     if op in ("listen", "listenfront"):
         return "%s %d %d" % (op, k, rng.choice(cbs))
+    if op == "listencond":
+        # callbacks 40..44 are registered through conditionalFunctor; one condition per callback id and script
+        cb = 40 + rng.randrange(5)
+        m = 2 + cb % 3
+        return "listencond %d %d %d %d" % (k, cb, m, cb % m)
+    if op == "listenadapt":
+        return "listenadapt %d %d" % (k, rng.choice(cbs))
     if op == "listenbefore":
         return "listenbefore %d %d %s" % (k, rng.choice(cbs), _handle(rng, issued, inside))
     if op == "unlisten":
@@ -144,7 +152,7 @@ def gen_script(rng, name, profile, max_ops=50):
     issued = 0
     for _ in range(rng.randint(6, max_ops)):
         c = _cmd(rng, profile, nk, issued, cbs, preds, filters)
-        if c.split()[0] in ("listen", "listenfront", "listenbefore", "addfilter"):
+        if c.split()[0] in ("listen", "listenfront", "listenbefore", "addfilter", "listencond", "listenadapt"):
             issued += 1
         lines.append("do " + c)
     lines.append("do process")
